@@ -11,7 +11,7 @@
    What is proved is listed below, production by production (the theorems C15_roundtrip_partial_xxx); the productions that are
    not listed (see fam/idl/NOTES.md) are carried by the three-way correspondence of pv/props/c15.py. *)
 From PVIdl Require Import Comb Ast Parser Print Proofs.Total Proofs.RoundTok Proofs.RoundPath Proofs.RoundAnn Proofs.RoundTy
-  Proofs.RoundKit Proofs.RoundItem.
+  Proofs.RoundKit Proofs.RoundNum Proofs.RoundConst Proofs.RoundItem.
 
 (* identifiers, followed by anything that does not continue a word *)
 Theorem C15_roundtrip_partial_ident : forall s k,
@@ -103,6 +103,32 @@ Theorem C15_layout_free_partial_type : forall lf whole1 whole2 df t1 t2 k1 k2,
   exists a, p_type lf df (pr_type t1 k1) = POk k1 a /\ p_type lf df (pr_type t2 k2) = POk k2 a.
 Proof. exact type_layout_free. Qed.
 Print Assumptions C15_layout_free_partial_type.
+
+(* integer constants as spelled by the layout: any number of minus signs, decimal or 0x hexadecimal digits, magnitude
+   within i64; the value is positional notation, negated for an odd number of signs *)
+Theorem C15_roundtrip_partial_int : forall lf i k,
+  wf_int i = true -> nid k = true -> (length (pr_int i k) < lf)%nat ->
+  p_int_constant lf (pr_int i k) = POk k (erase_int i).
+Proof. exact rt_int. Qed.
+Print Assumptions C15_roundtrip_partial_int.
+
+(* double constants (the parser keeps the text): optional '-', optional '+', the three body forms, exponents that are
+   integer constants *)
+Theorem C15_roundtrip_partial_double : forall lf d k,
+  wf_dbl d = true -> nid k = true -> (length (pr_dbl d k) < lf)%nat ->
+  p_double_constant lf (pr_dbl d k) = POk k (erase_dbl d).
+Proof. exact rt_dbl. Qed.
+Print Assumptions C15_roundtrip_partial_double.
+
+(* CONSTANT VALUES: ConstValue::parse with its eight alternatives, lists and maps nested to any depth, every blank slot,
+   separators ',' ';' or none between the elements.  [cvfollow]: a value that ends with a word or a number is followed by
+   (a blank and) something that does not continue it *)
+Theorem C15_roundtrip_partial_const_value : forall lf whole, (length whole < lf)%nat -> forall d v k,
+  (cv_depth v < d)%nat -> wf_const v = true -> cvfollow (const_ends_word v) (const_is_path v) k ->
+  sfx (pr_const v k) whole ->
+  p_const_value lf d (pr_const v k) = POk k (erase_const v).
+Proof. exact rt_const. Qed.
+Print Assumptions C15_roundtrip_partial_const_value.
 
 (* the typedef production (typedef <blank> T <blank> alias [blank] [annotations] [separator]); [stop k]: what follows is
    not a blank start, a separator, '(' or a quote; if the declaration ends with a word, what follows ends the word *)
